@@ -3,11 +3,13 @@ SPECIFICATION Spec
 CONSTANTS
   N = 2
   Catalogue = "tiny"
-  Relations = {"none", "parent", "dep", "group"}
+  Relations = {"none", "parent", "dep", "group", "gd"}
   MaxSet = 1
   MaxWrite = 1
   Validates = {FALSE, TRUE}
   SetClass = "plain"
+  MaxEdit = 0
+  MaxAssign = 0
   UpdEnabled = {TRUE}
   Deviations = {"EmptyStrAsNone", "InfTextAsFloat", "UuidTextAsId", "NoneMemberAsText", "IsValueFlipOnNone", "FileFormRejectsWorkspace", "GroupPropagation"}
 VIEW vw
